@@ -13,7 +13,6 @@ import (
 	"time"
 
 	bn256 "github.com/ethereum/go-ethereum/crypto/bn256/cloudflare"
-	"github.com/keep-network/keep-core/pkg/subscription"
 	"github.com/keep-network/keep-core/internal/testutils"
 	"github.com/keep-network/keep-core/internal/verifkit"
 	beaconchain "github.com/keep-network/keep-core/pkg/beacon/chain"
@@ -21,6 +20,7 @@ import (
 	"github.com/keep-network/keep-core/pkg/beacon/event"
 	"github.com/keep-network/keep-core/pkg/net"
 	"github.com/keep-network/keep-core/pkg/protocol/group"
+	"github.com/keep-network/keep-core/pkg/subscription"
 	"pgregory.net/rapid"
 )
 
@@ -384,8 +384,8 @@ func (c *c03eChannel) Recv(ctx context.Context, h func(net.Message)) {
 	c.handlers = append(c.handlers, h)
 	c.mu.Unlock()
 }
-func (c *c03eChannel) SetUnmarshaler(func() net.TaggedUnmarshaler)  {}
-func (c *c03eChannel) SetFilter(net.BroadcastChannelFilter) error { return nil }
+func (c *c03eChannel) SetUnmarshaler(func() net.TaggedUnmarshaler) {}
+func (c *c03eChannel) SetFilter(net.BroadcastChannelFilter) error  { return nil }
 func (c *c03eChannel) handler() func(net.Message) {
 	c.mu.Lock()
 	defer c.mu.Unlock()
